@@ -122,3 +122,6 @@ THEOREMS_GATESTIE = ["GatesTie." + t for t in "gateData_is_isDue gateCkpt_is_isD
 THEOREMS_C05C = ["C05c." + t for t in "same_all_eq packBatch_rowwise packBatch_row_independent coarse_shortcut_witness coarse_first_row_ok".split()]
 THEOREMS_C17C = ["C17c." + t for t in "gap_depends_on_own_row gaps_fst position_gather_witness position_gather_invisible_on_prefix".split()]
 THEOREMS_C03C = ["C03c.getError_accepts_imp_ksa_accepts", "C03c.ksa_accepts_unconverged_density"]
+THEOREMS_C01B = ["C01b." + t for t in """dispersion_derivative_unsaturated dispersion_derivative_saturated_one dispersion_derivative_saturated_zero dispersion_derivative_saturated dispersion_derivative_off_clip
+dispersion_derivative_angstrom dispersion_force_cartesian clip_jump_sizes clip_jump_le_1em12 clip_error_uniform clip_energy_error fDamp_not_continuousAt_upper_clip ePair_not_differentiableAt_upper_clip
+unit_slip_difference unit_slip_invisible_saturated unit_slip_witness unit_slip_not_derivative""".split()]
